@@ -122,6 +122,9 @@ run_op(char *op)
 		break;
 	}
 	case 'F':
+		/* RTBUF_ATTR_FLUSH: a program that also persists its metadata while it runs (stream.json only) */
+		if (getenv("RTBUF_ATTR_FLUSH"))
+			ovni_attr_flush();
 		ovni_flush();
 		break;
 	case 'X':
